@@ -171,7 +171,17 @@ def work(item):
             fv = z3.Int('fix_val')
             ctx.assume(z3.And(fv >= 0, fv < shape[fd]))
             fixv = int(symx.SInt(fv))
-        st.update(fd=fd, fixv=fixv)
+        # optionally a second fixed axis (getMin/getMax accept sequences): fd < fd2, both indices symbolic
+        fd2, fixv2 = -1, None
+        if fd >= 0:
+            f2 = z3.Int('fix_dim2')
+            ctx.assume(z3.Or(f2 == -1, z3.And(f2 > fd, f2 < 4)))
+            fd2 = int(symx.SInt(f2))
+            if fd2 >= 0:
+                fv2 = z3.Int('fix_val2')
+                ctx.assume(z3.And(fv2 >= 0, fv2 < shape[fd2]))
+                fixv2 = int(symx.SInt(fv2))
+        st.update(fd=fd, fixv=fixv, fd2=fd2, fixv2=fixv2)
 
         def rankfn(comm):
             h4 = m['layout'].getLayoutHandler(comm, dict(LAY4), list(nprocs), eta)
@@ -179,7 +189,9 @@ def work(item):
             dist.fill_grid(g, F)
             if fd < 0:
                 return g.getMin(0), g.getMax(0)
-            return g.getMin(0, fd, fixv), g.getMax(0, fd, fixv)
+            if fd2 < 0:
+                return g.getMin(0, fd, fixv), g.getMax(0, fd, fixv)
+            return g.getMin(0, [fd, fd2], [fixv, fixv2]), g.getMax(0, [fd, fd2], [fixv, fixv2])
         return simmpi.World(nranks).run(rankfn)
 
     def collector_body(ctx):
@@ -245,8 +257,10 @@ def work(item):
                 bad.append(toreal(zt(tot)) != toreal(zt(serial_quadrature(P, r, q, z, None, 'l2'))))
                 names.append('l2phi')
         elif part == 'minmax':
-            F, fd, fixv = st['F'], st['fd'], st['fixv']
+            F, fd, fixv, fd2, fixv2 = st['F'], st['fd'], st['fixv'], st['fd2'], st['fixv2']
             sel = F if fd < 0 else np.take(F, fixv, axis=fd)
+            if fd2 >= 0:
+                sel = np.take(sel, fixv2, axis=fd2 - 1)
             vals = [toreal(zt(x)) for x in np.ravel(sel)]
             rmin, rmax = val[0]
             if isinstance(rmin, float) or isinstance(rmax, float):
@@ -256,9 +270,9 @@ def work(item):
                 tmin, tmax = toreal(zt(rmin)), toreal(zt(rmax))
                 # characterisation of min / max: a bound of every selected element and equal to one of them
                 bad.append(z3.Or(z3.Or([tmin > x for x in vals]), z3.And([tmin != x for x in vals])))
-                names.append('min fix=%s/%s' % (fd, fixv))
+                names.append('min fix=%s/%s %s/%s' % (fd, fixv, fd2, fixv2))
                 bad.append(z3.Or(z3.Or([tmax < x for x in vals]), z3.And([tmax != x for x in vals])))
-                names.append('max fix=%s/%s' % (fd, fixv))
+                names.append('max fix=%s/%s %s/%s' % (fd, fixv, fd2, fixv2))
         else:
             F, P, k = st['F'], st['P'], st['k']
             out = val[0]
@@ -301,8 +315,16 @@ def work(item):
         elif r_ == 'sat':
             mdl = ctx.model()
             hits = [n for n, b in zip(names, bad) if z3.is_true(mdl.eval(b, model_completion=True))]
+            if part == 'minmax':
+                try:
+                    st['Fd'] = np.array([float(Fr(symx.model_value(mdl, x))) for x in np.ravel(st['F'])]).reshape(shape)
+                except Exception:
+                    st['Fd'] = None
             prob = float_replay(allm, item, st)
-            rep = dict(kind='diag', item=str(item[:4]), facts=hits, concrete=prob, canary=bool(canary), fix=[st.get('fd'), st.get('fixv')])
+            if not prob and part == 'minmax' and st.get('Fd') is not None:
+                st['Fd'] = None
+                prob = float_replay(allm, item, st)
+            rep = dict(kind='diag', item=str(item[:4]), facts=hits, concrete=prob, canary=bool(canary), fix=[st.get('fd'), st.get('fixv'), st.get('fd2'), st.get('fixv2')])
             if prob:
                 res['violations'].append(('diag:%s' % part, '%s (%s)' % (prob, hits[:2]), rep))
             else:
@@ -341,7 +363,9 @@ def float_replay(allm, item, st):
                    n=np.einsum('rtzv,r,v->', Fd, wr, wv) * dqdz, ke=0.5 * np.einsum('rtzv,r,v->', Fd, wr, wv * v * v) * dqdz,
                    l2phi=np.einsum('rtz,r->', (Pd * Pd.conj()).real, wr) * dqdz)
         nranks = int(np.prod(nprocs))
-        fd, fixv = st.get('fd', -1), st.get('fixv')
+        fd, fixv, fd2, fixv2 = st.get('fd', -1), st.get('fixv'), st.get('fd2', -1), st.get('fixv2')
+        if part == 'minmax' and st.get('Fd') is not None:
+            Fd = st['Fd']           # the solver's field
 
         def rankfn(comm):
             with warnings.catch_warnings():
@@ -373,6 +397,8 @@ def float_replay(allm, item, st):
             if part == 'minmax':
                 if fd is None or fd < 0:
                     out['mn'], out['mx'] = g.getMin(0), g.getMax(0)
+                elif fd2 is not None and fd2 >= 0:
+                    out['mn'], out['mx'] = g.getMin(0, [fd, fd2], [fixv, fixv2]), g.getMax(0, [fd, fd2], [fixv, fixv2])
                 else:
                     out['mn'], out['mx'] = g.getMin(0, fd, fixv), g.getMax(0, fd, fixv)
             if layout not in LAY4:
@@ -401,9 +427,11 @@ def float_replay(allm, item, st):
                 probs.append('collector: step %d (t=%s, dt=0.5) not stored in slot %d' % (kk, 0.5 * kk, kk % 3))
         if part == 'minmax':
             sel = Fd if (fd is None or fd < 0) else np.take(Fd, fixv, axis=fd)
+            if fd2 is not None and fd2 >= 0:
+                sel = np.take(sel, fixv2, axis=fd2 - 1)
             if outs[0]['mn'] != sel.min() or outs[0]['mx'] != sel.max():
-                probs.append('min/max at drawing rank (%s,%s) differ from global (%s,%s) for fixed dim %s index %s (grid %s, layout %s)' % (
-                    outs[0]['mn'], outs[0]['mx'], sel.min(), sel.max(), fd, fixv, list(nprocs), layout))
+                probs.append('min/max at drawing rank (%s,%s) differ from global (%s,%s) for fixed dim %s index %s%s (grid %s, layout %s)' % (
+                    outs[0]['mn'], outs[0]['mx'], sel.min(), sel.max(), fd, fixv, '' if fd2 is None or fd2 < 0 else ' and dim %s index %s' % (fd2, fixv2), list(nprocs), layout))
         return probs[0] if probs else None
     except Exception as e:
         return 'exception %s: %s' % (type(e).__name__, e)
